@@ -6,6 +6,7 @@
 //!   own  priorities are the ones rlib draws (`*`), only sequence-level observables are compared;
 //!   big  (C16) macro operations up to 10^6 elements: heap order on every edge, measured height;
 //!        wave 3: `strides S L`, `rr k c`, `thin s c`, `keep s` — the nodes of one treap are a subsequence of the thread's creations.
+//!   wave 4: `inserttag i k v p m…`, `moveroot i take|clone j pos p` — `insert_at` of items that carry a pending modification.
 #[path = "../../common/mod.rs"]
 mod common;
 mod gen;
@@ -305,6 +306,37 @@ fn step<I: HItem>(ts: &mut Vec<Treap<I>>, t: &[&str]) -> Option<(String, String)
             let (i, j) = (idx(i, ts.len())?, idx(j, ts.len())?);
             same(collect2(ts, i, j, |x| x.own())?)
         }
+        // ---- items that still CARRY A PENDING MODIFICATION are handed to `insert_at` ---------------------
+        ["inserttag", i, k, v, p, rest @ ..] => {
+            // `let mut it = Item::new(v); it.modify(m); ts[i].insert_at(k, it);`
+            let i = idx(i, ts.len())?;
+            let k: usize = k.parse().ok()?;
+            let v: i64 = v.parse().ok()?;
+            let prio: Option<u32> = if *p == "*" { None } else { Some(p.parse::<u32>().ok()?) };
+            let m = I::parse_tag(rest)?;
+            let mut it = I::mk(v);
+            it.modify(&m);
+            let x = it.own();
+            insert_item(&mut ts[i], k, it, prio);
+            same(format!("mv:{}:n:{}", x, ts[i].size()))
+        }
+        ["moveroot", i, w, j, pos, p] => {
+            // the item at the root of a ONE-element treap, read through the public `root` field (nobody pushed it:
+            // it carries whatever was attached to that treap), goes to `ts[j].insert_at(pos, it)`
+            let (i, j) = (idx(i, ts.len())?, idx(j, ts.len())?);
+            let pos: usize = pos.parse().ok()?;
+            let prio: Option<u32> = if *p == "*" { None } else { Some(p.parse::<u32>().ok()?) };
+            if !matches!(*w, "take" | "clone") {
+                return None;
+            }
+            if ts[i].size() != 1 {
+                return same("none".into());
+            }
+            let it: I = if *w == "take" { ts[i].root.take().unwrap().item } else { ts[i].root().unwrap().clone() };
+            let x = it.own();
+            insert_item(&mut ts[j], pos, it, prio);
+            same(format!("mv:{}:n:{}", x, ts[j].size()))
+        }
         ["tag", i, rest @ ..] => {
             let i = idx(i, ts.len())?;
             let m = I::parse_tag(rest)?;
@@ -314,6 +346,20 @@ fn step<I: HItem>(ts: &mut Vec<Treap<I>>, t: &[&str]) -> Option<(String, String)
             same("-".into())
         }
         _ => None,
+    }
+}
+
+/// `t.insert_at(pos, it)` — the real call when rlib draws the priority (`*`); with a given priority `insert_at` is its
+/// own definition (split_at, a node with that priority, merge, merge)
+fn insert_item<I: HItem>(t: &mut Treap<I>, pos: usize, it: I, prio: Option<u32>) {
+    match prio {
+        None => t.insert_at(pos, it),
+        Some(pr) => {
+            let mut node = Box::new(TreapNode::new(it));
+            node.priority = pr;
+            let (l, r) = TreapNode::split_at(t.root.take(), pos);
+            t.root = TreapNode::merge(TreapNode::merge(l, Some(node)), r);
+        }
     }
 }
 
